@@ -16,6 +16,7 @@ def vel_roll(tl):
     return out
 
 
+@guarded
 def check(r, items, caps):
     inp = {"items": items, "caps": caps}
     s = rseq(items)
